@@ -47,6 +47,9 @@ def h_request(ex, cas, requester='normal', dll='j1939-21', req_addr=REQ):
                                           len(sent[0]['data']) == 3,
                                           sym_eq_seq(sent[0]['data'], [pgn % 256, (pgn // 256) % 256, pgn // 65536])))
     answers = [f for f in w.log[base:] if f['src'] == 'S']
+
+    def same_addr(c):
+        return any(o is not c and o['held'] is not None and o['held'] == c['held'] for o in resp)
     glob = bool(dest == 255)
     for c in resp:
         addressed = raised is None and c['held'] is not None and (glob or bool(dest == c['held']))
@@ -55,6 +58,10 @@ def h_request(ex, cas, requester='normal', dll='j1939-21', req_addr=REQ):
         for f in answers:
             fld = ids.id_fields(f['id'])
             if c['held'] is not None and bool(fld['sa'] == c['held']):
+                # several CAs of one stack may hold the same address (claiming bypassed): an address-claimed frame
+                # belongs to the CA whose NAME it carries
+                if bool(fld['pf'] == 0xEE) and len(f['data']) == 8 and same_addr(c) and not bool(sym_eq_seq(f['data'], ids.name_bytes(c['ca']._name.value))):
+                    continue
                 mine.append((f, fld))
         if addressed and not is_claim_req:
             ex.claim('callback_once', len(c['calls']) == 1, info)
@@ -94,6 +101,9 @@ def jobs(tier):
         [['moved_twice', 128], ['bypassed', 151], ['wait_veto', 160]],
         [['bypassed', 0x20], ['moved_lost_waiting', 128]],
         [['bypassed_moved', 128]],
+        # two CAs of one stack on the same address (claiming bypassed): both own it
+        [['bypassed', 0x20], ['bypassed', 0x20]],
+        [['bypassed', 0x20], ['bypassed', 0x21], ['bypassed', 0x20]],
         [['bypassed_cannot', 140], ['bypassed_moved', 128], ['bypassed', 0x20]],
         [['bypassed', 0x20], ['bypassed_lost_waiting', 128]],
     ]
